@@ -75,6 +75,19 @@ MUTANTS = [
     ("c15_scale_abs", ["C15"], "bt/algos.py", "{k: self.scale * w for k, w in target.temp[\"weights\"].items()}", "{k: abs(self.scale) * w for k, w in target.temp[\"weights\"].items()}"),
     ("c15_weightarget_keeps_nan", ["C15"], "bt/algos.py", "            target.temp[\"weights\"] = w.dropna()", "            target.temp[\"weights\"] = w.fillna(0.0)"),
     ("c15_random_sum_ignored", ["C15"], "bt/algos.py", "            rw = bt.ffn.random_weights(n, self.bounds, self.weight_sum)", "            rw = bt.ffn.random_weights(n, self.bounds, 1.0)"),
+    # ---- C04
+    ("c04_universe_unsliced", ["C04"], "bt/core.py", "            self._funiverse = self._universe.loc[: self.now]\n", "            self._funiverse = self._universe\n"),
+    ("c04_weightarget_next_row", ["C04", "C15"], "bt/algos.py", "        if target.now in weights.index:\n            w = weights.loc[target.now]\n", "        if target.now in weights.index:\n            w = weights.loc[target.now:].iloc[-1] if len(weights.loc[target.now:]) > 3 else weights.loc[target.now]\n"),
+    ("c04_selectwhere_uses_max", ["C04", "C14"], "bt/algos.py", "            sig = signal.loc[target.now]\n", "            sig = signal.loc[target.now:].iloc[:2].any()\n"),
+    ("c04_sec_price_next", ["C04", "C01"], "bt/core.py", "                self._price = self._prices.values[inow]\n", "                self._price = self._prices.values[min(inow + 1, len(self._prices) - 1)] if inow > 3 else self._prices.values[inow]\n"),
+    ("c04_spread_from_last_row", ["C04", "C07"], "bt/core.py", "                self._bidoffer = self._bidoffers.values[inow]\n", "                self._bidoffer = self._bidoffers.values[-1]\n"),
+    ("c04_momentum_peeks_one_day", ["C04"], "bt/algos.py", "        prc = target.universe.loc[t0 - self.lookback : t0, selected]\n        target.temp[\"stat\"] = prc.calc_total_return()", "        prc = target._universe.loc[t0 - self.lookback : t0 + pd.DateOffset(days=1), selected]\n        target.temp[\"stat\"] = prc.calc_total_return()"),
+    # ---- C09
+    ("c09_paper_amount", ["C09"], "bt/core.py", "            self._paper_amount = 1000000\n", "            self._paper_amount = 100000\n"),
+    ("c09_paper_skipped_when_unfunded", ["C09"], "bt/core.py", "            if newpt:\n                self._paper.update(date)\n                self._paper.run()\n                self._paper.update(date)", "            if newpt and (self._capital != 0 or self._value != 0):\n                self._paper.update(date)\n                self._paper.run()\n                self._paper.update(date)"),
+    ("c09_child_price_own_value", ["C09"], "bt/core.py", "            # update price\n            self._price = self._paper.price\n            self._prices.array[inow] = self._price", "            # update price\n            if is_zero(self._value):\n                self._price = self._paper.price\n            self._prices.array[inow] = self._price"),
+    ("c09_paper_no_commissions", ["C09"], "bt/core.py", "            paper = deepcopy(self)\n", "            paper = deepcopy(self)\n            paper.commission_fn = paper._dflt_comm_fn\n"),
+    ("c09_universe_col_lagged", ["C09"], "bt/core.py", "                self._universe.loc[date, c] = self.children[c].price", "                self._universe.loc[date, c] = self.children[c]._last_price"),
     # ---- C08
     ("c08_fee_reset_every_update", ["C08", "C07"], "bt/core.py", "        # update now\n        self.now = date\n        if inow is None:\n            if self.now == 0:\n                inow = 0\n            else:\n                inow = self.data.index.get_loc(date)\n\n        # update children if any and calculate value", "        # update now\n        self.now = date\n        self._last_fee = 0.0\n        if inow is None:\n            if self.now == 0:\n                inow = 0\n            else:\n                inow = self.data.index.get_loc(date)\n\n        # update children if any and calculate value"),
     ("c08_outlay_row_accumulates", ["C08", "C07"], "bt/core.py", "            self._outlays.array[inow] += self._outlay\n            # reset outlay back to 0\n            self._outlay = 0\n", "            self._outlays.array[inow] += self._outlay\n"),
